@@ -229,6 +229,11 @@ class World:
                                         "delete_original": False, "compress": False, "nwindow": 2400,
                                         "overwrite": False}, None, self.cfg, 0)
         src = tmp / (LABEL + chr(97 + sh))
+        want = self.w["ns"] * (int(np.sum(so == sh)) + 1) * 2
+        f0 = src / f"{STEM}.ap.bin"
+        if not f0.exists() or f0.stat().st_size != want:
+            raise Violation("C04.S4", "split-world:first-run-output", f"a plain first conversion (no options) of a {self.w['ns']}-sample recording left "
+                            f"{f0.name} with {f0.stat().st_size if f0.exists() else 'no'} bytes for shank {sh}, expected {want}")
         shutil.rmtree(self.pdir)
         self.pdir.mkdir()
         for p in src.glob("*.ap.*"):
@@ -335,7 +340,6 @@ def _run(plan, base):
         steps_in = plan["steps"]
         nsteps = len(steps_in)
     session.pin_dependencies(base / "mtscomp.json", pool_seed=plan["seed"] % 1000)
-    W = World(base, w, plan["seed"])
     log = []
     steps_out = []
     stats = {"faults": {}, "sites": {}, "probes": {}, "outcomes": {}, "distinct": [], "steps": 0}
@@ -347,6 +351,7 @@ def _run(plan, base):
         stats[group][key] = stats[group].get(key, 0) + 1
 
     try:
+        W = World(base, w, plan["seed"])      # building an already-split world runs the converter once: it may fail the property too
         i = 0
         while i < nsteps and not model["consumed"]:
             st = _gen_step(r, nfaults, i == 0) if auto else dict(steps_in[i])
